@@ -146,7 +146,7 @@ template <typename Sem>
 static Outcome run_counting(Case const& c, Tape& t)
 {
     vt::Sched s;
-    s.timeouts_only_when_idle = c.avoid_stale;
+    s.discard_on_stale_timed = c.avoid_stale;    // (F12 shape: run not judged; timeouts race notifications freely otherwise)
     Sem sem(c.initial);
     long long release_started = 0, release_done = 0, acquired = 0, blocked_then_released = 0, timed_slept = 0;
     bool fail_slept = false;
@@ -219,6 +219,7 @@ static Outcome run_counting(Case const& c, Tape& t)
             " (supply covers every acquisition attempt by construction)";
     };
     s.run(t);
+    if (s.must_discard()) { Outcome dsc; dsc.kind = Outcome::DISCARD; dsc.counters["avoided"] = 1; return dsc; }
     Outcome out;
     if (!fail.empty())
     {
@@ -296,6 +297,7 @@ static Outcome run_sliding(Case const& c, Tape& t)
     }
     s.diagnose = [&] { return "sliding: largest signalled lower limit " + std::to_string(max_signal_started) + ", every wait is satisfiable by construction"; };
     s.run(t);
+    if (s.must_discard()) { Outcome dsc; dsc.kind = Outcome::DISCARD; dsc.counters["avoided"] = 1; return dsc; }
     Outcome out;
     if (!fail.empty()) out = Outcome::fail("sliding_window", fail);
     out.counters["decisions"] = s.decisions;
